@@ -18,4 +18,6 @@ def recoverBody : List String := ["defer{if(p:=recover();p!=nil){if(panicFn!=nil
 
 def waitUntimedTail : String := "l.w.Wait()"
 
+def waitTimedBody : List String := ["if(len(waitTime)>0){quit:=make(chanstruct{},1); go func(chchan<-struct{}){l.w.Wait()ch<-struct{}{}}(…); select{case recv quit:{} case recv time.After(waitTime[0]):{}}; return}"]
+
 end Golib.Gen.C19
